@@ -872,6 +872,36 @@ def scen_kill_recv(impl, rng, role, kind, j):
     return s, True
 
 
+END_KINDS = ("=begin", "last-1", "last", ">last", "<begin", "0")
+
+
+def scen_bounded_resend(impl, rng, role, endkind, prior_full, trailing):
+    """the counterparty (a foreign engine: the library itself only asks with EndSeqNo=0) sends a BOUNDED
+    ResendRequest – EndSeqNo = Begin / last-1 / last / beyond last / below Begin / 0 – possibly after an earlier
+    complete resend (which leaves GapFill rows / holes for the trailing session messages), with `trailing` session
+    messages of the endpoint at the end of its numbering; then a restart BEFORE the next send, reconnect + Logon."""
+    s = Session(impl, role, rng)
+    warm(s, rng, rng.randint(1, 3))
+    if s.a.state != 17:
+        return s
+    s.app_out()
+    s.app_out()
+    for i in range(trailing):                       # the endpoint's newest numbers are Heartbeat replies
+        s.peer_send("1", [(112, f"T{i}")])
+    if prior_full:
+        s.peer_send("2", [(7, str(rng.randint(1, max(1, s.a.next_out - 2)))), (16, "0")], record=False)
+    last = s.a.next_out - 1
+    begin = rng.randint(2, max(2, last - 1)) if last >= 2 else 1
+    end = {"=begin": begin, "last-1": max(1, last - 1), "last": last, ">last": last + rng.choice([1, 7]),
+           "<begin": max(1, begin - 1), "0": 0}[endkind]
+    s.trace.append(["bounded", begin, end, last])
+    s.peer_send("2", [(7, str(begin)), (16, str(end))], record=False)
+    nothing_lost = s.a.next_in == s.p_out and s.a.state == 17
+    restart_and_continue(s, False, nothing_lost)     # no send between the resend and the restart
+    s.final_checks()
+    return s
+
+
 FAULT_SITES = {
     # site: (what the counterparty sends, collaborator that fails)
     "M": "app",          # on_message of an in-sequence application message
@@ -992,6 +1022,13 @@ def run_scenarios(impl, rng, rounds, stats):
                 seed = rng.randrange(1 << 30)
                 s = scen_quiescent(impl, _rng(seed), role, v)
                 collect(s, "quiescent:" + v, {"role": role, "seed": seed, "variant": v})
+            for endkind in END_KINDS:
+                for prior_full in (False, True):
+                    seed = rng.randrange(1 << 30)
+                    trailing = _rng(seed).choice([0, 1, 2, 3])
+                    s = scen_bounded_resend(impl, _rng(seed), role, endkind, prior_full, trailing)
+                    collect(s, f"bounded-resend:{endkind}:{'after-full' if prior_full else 'first'}",
+                            {"role": role, "seed": seed, "endkind": endkind, "prior_full": prior_full, "trailing": trailing})
             for site in ("M", "N", "W", "S"):
                 for exc in ("exception", "cancel", "interrupt", "reset"):
                     if site in ("M", "S") and exc == "reset":
@@ -1031,6 +1068,8 @@ def run_one(impl, name, params):
     rng = _rng(params["seed"])
     if name.startswith("quiescent:"):
         return scen_quiescent(impl, rng, params["role"], params["variant"])
+    if name.startswith("bounded-resend:"):
+        return scen_bounded_resend(impl, rng, params["role"], params["endkind"], params["prior_full"], params["trailing"])
     if name.startswith("fault:"):
         return scen_hook_fault(impl, rng, params["role"], params["site"], params["exc"], params["then_restart"])
     if name.startswith("peer-midframe:"):
